@@ -88,7 +88,7 @@ func (state *RuntimeState) BootstrapOtpAuthHandler(w http.ResponseWriter,
 		state.writeFailureResponse(w, r, http.StatusInternalServerError, "")
 		return
 	}
-	_, err = state.updateAuthCookieAuthlevel(w, r,
+	_, err = state.updateAuthCookieAuthlevel(w, r, authData.Username,
 		authData.AuthType|AuthTypeBootstrapOTP)
 	if err != nil {
 		logger.Printf("Auth Cookie NOT found ? %s", err)
